@@ -549,17 +549,17 @@ theorem typeLook_zero (l : List Spanned) : typeLook (l.map zeroSpan) = typeLook 
     simp only [List.map_cons, typeLook]
     cases ht : t.tok <;> simp_all [zeroSpan]
 
-theorem softTok_zero (sol : Bool) (t : Spanned) (ts : List Spanned) :
-    softTok sol (zeroSpan t) (ts.map zeroSpan) = softTok sol t ts := by
+theorem softTok_zero (sol sos : Bool) (t : Spanned) (ts : List Spanned) :
+    softTok sol sos (zeroSpan t) (ts.map zeroSpan) = softTok sol sos t ts := by
   have h1 := matchCaseLook_zero ts 0 true false false
   have h2 := typeLook_zero ts
   simp only [softTok]
   simp [zeroSpan] at h1 h2 ⊢
   split <;> simp_all
 
-theorem softKwGo_zero (l : List Spanned) (sol : Bool) :
-    (softKwGo (l.map zeroSpan) sol).map (·.tok) = (softKwGo l sol).map (·.tok) := by
-  induction l generalizing sol with
+theorem softKwGo_zero (l : List Spanned) (st : SoftSt) :
+    (softKwGo (l.map zeroSpan) st).map (·.tok) = (softKwGo l st).map (·.tok) := by
+  induction l generalizing st with
   | nil => simp [softKwGo]
   | cons t ts ih =>
     simp only [List.map_cons, softKwGo, softTok_zero]
